@@ -115,7 +115,7 @@ def bounded(tier, seed, procs):
     for pat in pats:
         vs = sorted(pattern_vars(pat, set()) & {"a", "b", "c"})
         cand_sets = [vs] + [list(s) for r in range(len(vs)) for s in itertools.combinations(vs, r)]
-        targets = [t for t, _ in inst_targets[id(pat)]] + all_targets[::3]
+        targets = [t for t, _ in inst_targets[id(pat)]] + trees.thin(all_targets, max(1, len(all_targets) // 3), seed=1)
         # commuted variants
         extra = []
         for t in targets[:10]:
